@@ -58,6 +58,10 @@ var backgroundJob = regexp.MustCompile(`(^|\s)&(\s|;|\}|\)|$)`)
 
 func run(c *common.Ctx) error {
 	repo := repoDir()
+	if c.Dir != "" {
+		workerTmp = filepath.Join(c.Dir, "workers")
+		os.MkdirAll(workerTmp, 0o755)
+	}
 	var ops []string
 	emit := func(fields ...string) {
 		for _, f := range fields {
